@@ -89,11 +89,12 @@ fn pick_plane(c: &mut Ctx, m: &RawMesh, size: f64, miss: bool) -> Option<(Vector
 
 fn closed_mesh(c: &mut Ctx) -> RawMesh {
     let size = if c.rng.chance(0.4) { c.rng.log_range(1e-2, 1e2) } else { c.rng.range(0.5, 3.0) };
+    let tiny = c.tiny;
     let m = match c.rng.int(0, 4) {
         0 => gen::mesh_box(c.rng.range(0.3, 1.0), c.rng.range(0.3, 1.0), c.rng.range(0.3, 1.0)),
-        1 => gen::mesh_prism(c.rng.int(3, 40), 0.5, c.rng.range(0.3, 1.5), true),
-        2 => gen::mesh_icosphere(c.rng.int(0, 3), 0.5),
-        3 => gen::mesh_torus(c.rng.int(4, 24), c.rng.int(4, 16), 0.4, c.rng.range(0.05, 0.2)),
+        1 => gen::mesh_prism(c.rng.int(3, if tiny { 8 } else { 40 }), 0.5, c.rng.range(0.3, 1.5), true),
+        2 => gen::mesh_icosphere(c.rng.int(0, if tiny { 0 } else { 3 }), 0.5),
+        3 => gen::mesh_torus(c.rng.int(4, if tiny { 6 } else { 24 }), c.rng.int(4, if tiny { 5 } else { 16 }), 0.4, c.rng.range(0.05, 0.2)),
         _ => gen::mesh_icosphere(1, 0.5),
     };
     let t = {
